@@ -48,11 +48,11 @@ type Env struct {
 	// referenced from that version existed then); nil means "use the state's counter"
 	topFor func(heapVersion Term) (Term, bool)
 	wfSeen map[string]bool
+	rangeIters func(n int) (it Term, heap string, ok bool)
 	// absolute-index form of a bounded quantifier: bound variable absVar is represented as
 	// (absK - absOff) so that absVar-indexing of the slice with offset absOff selects at absK
-	absVar string
-	absK   Term
-	absOff string
+	absK   map[string]Term
+	absOff map[string]string
 	oldNames map[string]TV // names as of the pre-state (for old(x) on call-site ghost)
 }
 
@@ -215,8 +215,8 @@ func (e *Env) eval(x SExpr) TV {
 }
 
 func (e *Env) ident(name string) TV {
-	if e.absVar != "" && name == e.absVar {
-		return TV{Sub(e.absK, Term{e.absOff, SInt}), nil}
+	if k, ok := e.absK[name]; ok {
+		return TV{Sub(k, Term{e.absOff[name], SInt}), nil}
 	}
 	if s, ok := e.bound[name]; ok {
 		if s == SStr {
@@ -446,8 +446,10 @@ func (e *Env) index(x SIndex) TV {
 	switch u := b.Typ.Underlying().(type) {
 	case *types.Slice:
 		abs := Add(SlOff(b.T), i.T)
-		if id, ok := x.I.(SIdent); ok && e.absVar != "" && id.Name == e.absVar && SlOff(b.T).S == e.absOff {
-			abs = e.absK
+		if id, ok := x.I.(SIdent); ok {
+			if k, isAbs := e.absK[id.Name]; isAbs && SlOff(b.T).S == e.absOff[id.Name] {
+				abs = k
+			}
 		}
 		if isStructType(u.Elem()) {
 			if _, _, local := e.w.localStruct(u.Elem()); local {
@@ -584,7 +586,13 @@ func (e *Env) call(x SCall) TV {
 					delete(n.bound, id.Name)
 					n.bound[kname] = SInt
 					off := SlOff(sv.T)
-					n.absVar, n.absK, n.absOff = id.Name, Sym(kname, SInt), off.S
+					nk, no := map[string]Term{}, map[string]string{}
+					for k, v := range e.absK {
+						nk[k] = v
+						no[k] = e.absOff[k]
+					}
+					nk[id.Name], no[id.Name] = Sym(kname, SInt), off.S
+					n.absK, n.absOff = nk, no
 					jt := Sub(Sym(kname, SInt), off)
 					lo, hi := n.eval(x.Args[1]), n.eval(x.Args[2])
 					rng = And(Le(lo.T, jt), Lt(jt, hi.T))
@@ -673,6 +681,33 @@ func (e *Env) call(x SCall) TV {
 			e.fail("global(\"Name\")")
 		}
 		return TV{e.heap(e.st, e.w.Heap("G$"+s.V, SInt)), nil}
+	case "rangevisited":
+		// rangevisited(n, k): has the n-th map range loop of this function already delivered key k?
+		argc(2)
+		nlit, ok := x.Args[0].(SNum)
+		if !ok || e.rangeIters == nil {
+			e.fail("rangevisited(n, k) with a literal n inside a function contract")
+		}
+		var n int
+		fmt.Sscanf(nlit.Dec, "%d", &n)
+		it, h, ok := e.rangeIters(n)
+		if !ok {
+			e.fail("no map range loop #%d (yet) at this point", n)
+		}
+		k := e.eval(x.Args[1])
+		return TV{Select(Select(e.heap(e.st, h), it), k.T), types.Typ[types.Bool]}
+	case "heap":
+		// heap("H$T$f"): the current version of a heap variable as a value (for spec functions
+		// that are defined over the heap, e.g. sums over a list of objects)
+		argc(1)
+		hs, ok := x.Args[0].(SStrL)
+		if !ok {
+			e.fail("heap(\"name\")")
+		}
+		if !e.w.ensureHeap(hs.V) {
+			e.fail("unknown heap variable %s", hs.V)
+		}
+		return TV{e.heap(e.st, hs.V), nil}
 	case "typetag":
 		argc(1)
 		s, ok := x.Args[0].(SStrL)
@@ -881,6 +916,19 @@ func firstIndexedBy(x SExpr, v string) SExpr {
 		return firstIndexedBy(x.X, v)
 	case SCall:
 		if x.Fn == "forall" || x.Fn == "exists" || x.Fn == "forallstr" {
+			// look inside nested quantifiers too, but never pick an expression that depends on their variables
+			if len(x.Args) < 2 {
+				return nil
+			}
+			inner, ok := x.Args[0].(SIdent)
+			if !ok || inner.Name == v {
+				return nil
+			}
+			for _, a := range x.Args[1:] {
+				if r := firstIndexedBy(a, v); r != nil && !mentions(r, inner.Name) {
+					return r
+				}
+			}
 			return nil
 		}
 		for _, a := range x.Args {
@@ -908,6 +956,27 @@ func mentions(x SExpr, v string) bool {
 		for _, a := range x.Args {
 			if mentions(a, v) {
 				return true
+			}
+		}
+	}
+	return false
+}
+
+// ensureHeap registers a field heap "H$T$f" on demand.
+func (w *World) ensureHeap(name string) bool {
+	if _, ok := w.heapSort[name]; ok {
+		return true
+	}
+	parts := strings.Split(name, "$")
+	if len(parts) == 3 && parts[0] == "H" {
+		if tn, ok := w.TPkg.Scope().Lookup(parts[1]).(*types.TypeName); ok {
+			if st, key, local := w.localStruct(tn.Type()); st != nil && local {
+				for i := 0; i < st.NumFields(); i++ {
+					if st.Field(i).Name() == parts[2] && !isStructType(st.Field(i).Type()) {
+						w.FieldHeap(key, parts[2], w.SortOf(st.Field(i).Type()))
+						return true
+					}
+				}
 			}
 		}
 	}
